@@ -2,10 +2,12 @@ package checks
 
 import (
 	"fmt"
+	"strings"
 	"time"
 
 	vmcommon "github.com/ElrondNetwork/elrond-vm-common"
 
+	"verif/engine/explore"
 	"verif/engine/uni"
 	"verif/engine/world"
 )
@@ -91,6 +93,32 @@ func C17(tier Tier) int {
 		}
 	}
 	env.FailKind, env.KeepDeps = nil, false
+	// the same enumeration along histories: every successful transition of a search over the whole
+	// menu is re-executed once per dependency call with that call failing
+	hist := c17HistProfile(tier)
+	depth := hist.Depth
+	var histStates, histTrans int64
+	histExhaustive := true
+	if r, err := explore.Run(hist); err != nil {
+		o.SelfCheck = append(o.SelfCheck, "profile fault-histories: "+err.Error())
+	} else {
+		histStates, histTrans, histExhaustive = r.States, r.Transitions, r.Exhaustive
+		for _, v := range FromExplore(r.Violations) {
+			e.Viols = append(e.Viols, v)
+		}
+		for cls, n := range r.Classes {
+			if strings.HasPrefix(cls, "fault-point:") {
+				kinds[strings.TrimPrefix(cls, "fault-point:")+"(histories)"] += int(n)
+				points += int(n)
+			}
+			if strings.HasPrefix(cls, "fault:") {
+				e.Distinct[cls+"(histories)"] += n
+			}
+		}
+		for _, sf := range r.SeedFailures {
+			o.SelfCheck = append(o.SelfCheck, "profile fault-histories: seed "+sf)
+		}
+	}
 	for _, k := range []string{"SaveKeyValue", "LoadAccount", "SaveAccount", "Marshal", "Unmarshal", "IsPayable", "AddToBalance", "ChangeOwnerAddress", "ClaimDeveloperRewards"} {
 		if kinds[k] == 0 {
 			o.SelfCheck = append(o.SelfCheck, "no fault point of kind "+k)
@@ -105,13 +133,88 @@ func C17(tier Tier) int {
 		"scenarios":            len(cat),
 		"fault_points":         points,
 		"fault_points_by_kind": kinds,
-		"exhaustive":           true,
+		"exhaustive":           histExhaustive,
 		"observation_classes":  e.Distinct,
+		"history_search":       map[string]interface{}{"states": histStates, "transitions": histTrans, "depth": depth, "exhaustive_within_bound": histExhaustive},
 	}
 	return Finish(o)
 }
 
+func c17HistProfile(tier Tier) *explore.Profile {
+	depth := 2
+	if tier.Thorough() {
+		depth = 3
+	}
+	mo := menuOpts{thorough: tier.Thorough(), shards: 2}
+	return &explore.Profile{
+		Name: "fault-histories", EnvCfg: ledgerEnv(2), Seeds: seedsOf("mixed", "frozen", "handover", "refunds", "refunds-with-call"), Depth: depth, Deadline: tierDeadline(tier), WithGhost: true,
+		Menu: func(w *world.World) []world.Action {
+			acts := wholeMenu(w, mo)
+			acts = append(acts, transferMenu(w, menuOpts{shards: 2})...)
+			return acts
+		},
+		PostStep: faultHook("C17"),
+	}
+}
+
+// faultHook re-executes every successful transition once per counted dependency call of its first
+// execution, with that call failing.
+func faultHook(property string) func(c *explore.Ctx, pre *world.World, act world.Action, post *world.World, legs []*world.Leg) {
+	return func(c *explore.Ctx, pre *world.World, act world.Action, post *world.World, legs []*world.Leg) {
+		if len(legs) == 0 || !legs[0].OK() || legs[0].Input == nil {
+			return
+		}
+		env := c.Env
+		fn := legs[0].Func
+		env.FailKind = faultFilter(fn)
+		env.FailAt = 0
+		env.KeepDeps = true
+		env.ResetDeps()
+		_, l0 := env.Step(pre, act)
+		env.KeepDeps = false
+		defer func() {
+			env.FailKind, env.FailAt = nil, 0
+			env.ResetDeps()
+		}()
+		if len(l0) == 0 || !l0[0].OK() {
+			return
+		}
+		var counted []world.Dep
+		for _, d := range l0[0].Deps {
+			if env.FailKind(d) {
+				counted = append(counted, d)
+			}
+		}
+		ord := map[string]int{}
+		for k := 1; k <= len(counted); k++ {
+			d := counted[k-1]
+			ord[d.Kind]++
+			env.ResetDeps()
+			env.FailAt = k
+			_, fl := env.Step(pre, act)
+			env.FailAt = 0
+			if len(fl) == 0 {
+				continue
+			}
+			l := fl[0]
+			site := fmt.Sprintf("%s:%s:%s#%d", fn, sideOf(legs[0]), d.Kind, ord[d.Kind])
+			c.Class("fault-point:" + d.Kind)
+			switch {
+			case l.Panic != nil:
+				c.Report(property, "fault", site+":panic", fmt.Sprintf("%s: with dependency call %d (%s) failing the function panicked: %v", DescribeAction(act), k, d.Kind, l.Panic))
+			case l.OK():
+				c.Report(property, "fault", site+":reported-ok", fmt.Sprintf("%s: dependency call %d of %d (%s %s) failed, yet %s returned Ok", DescribeAction(act), k, len(counted), d.Kind, uni.Name([]byte(d.Detail)), fn))
+			case l.Out != nil:
+				c.Report(property, "fault", site+":output-and-error", fmt.Sprintf("%s: error returned together with an output", DescribeAction(act)))
+			default:
+				c.Class("fault:error-returned:" + fn + ":" + d.Kind)
+			}
+		}
+	}
+}
+
 func init() {
+	LedgerProfiles["C17"] = func(tier Tier) []*explore.Profile { return []*explore.Profile{c17HistProfile(tier)} }
 	Replayers["fault"] = func(property, sig string, payload []byte) int { return rerunCheck(property, sig) }
 	Replayers["case"] = func(property, sig string, payload []byte) int { return rerunCheck(property, sig) }
 }
